@@ -608,6 +608,11 @@ class Interp:
     def join(self, cterm, a, b):
         if a is b:
             return a
+        from . import imgdom as _img
+        if isinstance(a, _img.Filtered) or isinstance(b, _img.Filtered):
+            j_ = _img.join_filtered(cterm, a, b)
+            if j_ is not None:
+                return j_
         if isinstance(a, Val) and isinstance(b, Val):
             if a.term == b.term:
                 return a
